@@ -31,9 +31,9 @@ def vote(calls):
     return winners[0] if len(winners) == 1 else None
 
 
-def single_read_fragment(mk, start, seq, quals, name='q', rev=False):
+def single_read_fragment(mk, start, seq, quals, name='q', rev=False, cigartuples=None):
     n = len(seq)
-    r = mk(query_name=name, reference_name='chr1', reference_start=start, cigartuples=[(0, n)], seq=seq, qual=''.join(chr(33 + q) for q in quals),
+    r = mk(query_name=name, reference_name='chr1', reference_start=start, cigartuples=(cigartuples or [(0, n)]), seq=seq, qual=''.join(chr(33 + q) for q in quals),
            is_reverse=rev, is_read1=True, is_read2=False, tags={'SM': 'lib_1', 'RX': 'ACG'})
     return Fragment([r, None], umi_hamming_distance=0)
 
